@@ -54,6 +54,9 @@ def cases(tier, seed):
             ps["start_scale"] = float(gen.pick(rng, [1e17, 1e18, 1e20]))
             cfg["jac"] = "callable"
             cfg["scaler"] = float(np.exp(rng.uniform(np.log(1e-3), np.log(1e3))))
+        e2e.vary_rare_parameters(rng, cfg)
+        if rng.random() < 0.1:
+            cfg["max_steplength"] = float(gen.pick(rng, [0.1, 1.0, 5.0]))
         if i % 9 == 5 and cfg["jac"] == "callable":
             cfg["reuse_value_buffer"] = True  # the objective returns its value in one reused one-element array, which the gradient code overwrites
         if i % 4 == 2:
